@@ -2,7 +2,9 @@ package rules
 
 import (
 	"fmt"
+	"go/types"
 	"sort"
+	"strings"
 
 	"golang.org/x/tools/go/ssa"
 
@@ -170,5 +172,225 @@ func (c *Ctx) lockOrder(rule string) {
 		} else {
 			r.Ok(rule, key, c.pos(e.at), fmt.Sprintf("%s taken while %s held in %s%s; no path of acquisitions leads back", e.to, e.from, fname(e.fn), e.via))
 		}
+	}
+}
+
+// ---- shared locks held across a transport write (C08 R6) ----
+
+// isWireWrite: the call hands bytes to a transport: Write / WriteStream / Flush on a connection, writer or
+// buffered writer.
+func isWireWrite(ci ssa.CallInstruction) bool {
+	com := ci.Common()
+	if com.IsInvoke() {
+		switch com.Method.Name() {
+		case "Write", "WriteStream":
+			t := com.Value.Type()
+			return flow.TypeIs(t, "net", "Conn") || flow.TypeIs(t, "io", "Writer") || flow.TypeIs(t, pkgDiam, "MultistreamConn") || flow.TypeIs(t, pkgDiam, "MultistreamWriter")
+		}
+		return false
+	}
+	if o := flow.CalleeObj(ci); o != nil && o.Pkg() != nil && o.Pkg().Path() == "bufio" {
+		if sig, ok := o.Type().(*types.Signature); ok && flow.RecvTypeName(sig) == "Writer" {
+			switch o.Name() {
+			case "Write", "Flush", "WriteString", "WriteByte", "ReadFrom":
+				return true
+			}
+		}
+	}
+	return false
+}
+
+// lockWrappers: acq[h] = lock classes h returns holding (it locks and, on some path, does not unlock — neither
+// directly nor by a deferred call); rel[h] = classes h unlocks without having locked them.
+func (c *Ctx) lockWrappers() (acq, rel map[*ssa.Function][]string) {
+	acq, rel = map[*ssa.Function][]string{}, map[*ssa.Function][]string{}
+	for _, h := range c.P.LibraryFuncs() {
+		ops := lockOps(h)
+		if len(ops) == 0 {
+			continue
+		}
+		for _, a := range ops {
+			cl := lockClassOf(a.in)
+			if cl == "" {
+				continue
+			}
+			if a.acquire && !a.deferred {
+				deferredRel := false
+				for _, o := range ops {
+					if !o.acquire && o.deferred && o.path == a.path {
+						deferredRel = true
+					}
+				}
+				isRel := func(in ssa.Instruction) bool {
+					for _, o := range ops {
+						if !o.acquire && !o.deferred && o.path == a.path && o.in == in {
+							return true
+						}
+					}
+					return false
+				}
+				if !deferredRel && flow.PathAvoiding(h, a.in, flow.IsReturn, isRel) != nil {
+					acq[h] = append(acq[h], cl)
+				}
+			}
+			if !a.acquire {
+				locked := false
+				for _, o := range ops {
+					if o.acquire && o.path == a.path {
+						locked = true
+					}
+				}
+				if !locked {
+					rel[h] = append(rel[h], cl)
+				}
+			}
+		}
+	}
+	return acq, rel
+}
+
+// sharedLockAcrossWrite: R6 of C08. A mutex that is not private to one connection, held by some library function
+// while it writes to a transport, must not be acquired by the connection loop or by anything on the dispatch
+// chain: a peer that stops reading blocks that write, the write holds the mutex, and the dispatch of the other
+// connections' messages waits for it. perConnCtor tells whether a function is a constructor of the connection
+// object (the types it allocates are per-connection).
+func (c *Ctx) sharedLockAcrossWrite(rule string, loopFns []*ssa.Function, closure map[*ssa.Function]bool, perConnCtor func(*ssa.Function) bool) {
+	r := c.R
+	acq, rel := c.lockWrappers()
+	// per-connection owner types
+	allocIn := map[string]map[*ssa.Function]bool{}
+	var note func(t types.Type, f *ssa.Function, d int)
+	note = func(t types.Type, f *ssa.Function, d int) {
+		if d > 3 {
+			return
+		}
+		if n, ok := t.(*types.Named); ok {
+			if allocIn[n.Obj().Name()] == nil {
+				allocIn[n.Obj().Name()] = map[*ssa.Function]bool{}
+			}
+			allocIn[n.Obj().Name()][f] = true
+		}
+		if st, ok := t.Underlying().(*types.Struct); ok {
+			for i := 0; i < st.NumFields(); i++ {
+				if _, isPtr := st.Field(i).Type().(*types.Pointer); !isPtr {
+					note(st.Field(i).Type(), f, d+1)
+				}
+			}
+		}
+	}
+	for _, f := range c.P.LibraryFuncs() {
+		flow.Instrs(f, func(in ssa.Instruction) {
+			if al, ok := in.(*ssa.Alloc); ok {
+				note(al.Type().(*types.Pointer).Elem(), f, 0)
+			}
+		})
+	}
+	perConn := func(class string) bool {
+		owner := class
+		if i := strings.Index(class, "."); i >= 0 {
+			owner = class[:i]
+		}
+		fs := allocIn[owner]
+		if len(fs) == 0 {
+			return false
+		}
+		for f := range fs {
+			if !perConnCtor(f) {
+				return false
+			}
+		}
+		return true
+	}
+	// classes held at a wire write, with a witness
+	type held struct {
+		fn *ssa.Function
+		at ssa.Instruction
+	}
+	across := map[string]held{}
+	for _, f := range c.P.LibraryFuncs() {
+		var writes []ssa.CallInstruction
+		for _, ci := range flow.CallInstrs(f) {
+			if _, isGo := ci.(*ssa.Go); !isGo && isWireWrite(ci) {
+				writes = append(writes, ci)
+			}
+		}
+		if len(writes) == 0 {
+			continue
+		}
+		for _, w := range writes {
+			for _, h := range mayHeldAt(f, w) {
+				if cl := lockClassOf(h.in); cl != "" {
+					if _, seen := across[cl]; !seen {
+						across[cl] = held{f, w}
+					}
+				}
+			}
+			for _, ci := range flow.CallInstrs(f) {
+				if _, isCall := ci.(*ssa.Call); !isCall {
+					continue
+				}
+				g := flow.StaticCallee(ci)
+				for _, cl := range acq[g] {
+					isRelCall := func(in ssa.Instruction) bool {
+						cj, ok := in.(*ssa.Call)
+						if !ok {
+							return false
+						}
+						for _, rc := range rel[flow.StaticCallee(cj)] {
+							if rc == cl {
+								return true
+							}
+						}
+						return false
+					}
+					if flow.PathAvoiding(f, ci, func(in ssa.Instruction) bool { return in == ssa.Instruction(w) }, isRelCall) != nil {
+						if _, seen := across[cl]; !seen {
+							across[cl] = held{f, w}
+						}
+					}
+				}
+			}
+		}
+	}
+	// classes the loop and the dispatch chain acquire
+	memo := map[*ssa.Function]map[string]bool{}
+	onDispatch := map[string]*ssa.Function{}
+	var fs []*ssa.Function
+	fs = append(fs, loopFns...)
+	for f := range closure {
+		fs = append(fs, f)
+	}
+	sort.Slice(fs, func(i, j int) bool { return fname(fs[i]) < fname(fs[j]) })
+	for _, f := range fs {
+		if f == nil || !c.P.IsLibrary(f) {
+			continue
+		}
+		for cl := range c.acquiredClasses(f, 0, memo) {
+			if _, seen := onDispatch[cl]; !seen {
+				onDispatch[cl] = f
+			}
+		}
+	}
+	var classes []string
+	for cl := range across {
+		classes = append(classes, cl)
+	}
+	sort.Strings(classes)
+	n := 0
+	for _, cl := range classes {
+		if perConn(cl) {
+			continue
+		}
+		n++
+		key := "shared-lock-across-write:" + cl
+		if f, ok := onDispatch[cl]; ok {
+			h := across[cl]
+			r.Fail(rule, key, c.pos(h.at), fmt.Sprintf("%s is held while %s writes to a transport (%s) and is also taken on the way to the handlers (%s): a peer that stops reading blocks that write, and with it the dispatch of messages arriving on every other connection", cl, fname(h.fn), short(flow.Describe(h.at), 50), fname(f)))
+		} else {
+			r.Ok(rule, key, c.pos(across[cl].at), cl+" is held across a transport write but is not taken by the connection loop or the dispatch chain")
+		}
+	}
+	if n == 0 {
+		r.Ok(rule, "shared-lock-across-write:none", "-", fmt.Sprintf("no mutex shared between connections is held across a transport write (%d classes examined, the per-connection ones set aside)", len(classes)))
 	}
 }
